@@ -33,7 +33,7 @@ CLAIMED["C11"] = {
           "decc, hexc, logisim8/16, Intel HEX at units 8/16/32 (one block from offset 0, addresses within 16 bits; checksums/lengths/EOF/contiguity verified by the decoder) and, without the "
           "ASCII gutter, bindump/hexdump; decoders are written from the formats' own rules. The formatter model is tied to the code by comparing its text byte-for-byte with BitVec::format_* "
           "and driver::format_output on every length 0..600 (quick) / 0..4096 (thorough) x {random, ones, zeros} x 17 formats x debug/release, 2^k+-1 lengths and multi-block layouts; the "
-          "extracted strict decoders are evaluated on the implementation's text.",
+          "extracted strict decoders are evaluated on the implementation's text. Multi-block Intel HEX (get_blocks exact for any span list; record round trip and memory image for aligned blocks below 64 Ki units) and the whole text of hexdump/bindump (address gutter, data, ASCII column) are theorems; F24 and F45 remain as refuted statements = known findings.",
   "design_ref": "6/C11", "note": COMMON_NOTE + " Known findings F24 (Intel HEX beyond 64 Ki units), F45 (Intel HEX block off an address-unit boundary); multi-block Intel HEX and dump gutters are decided by the run-time predicate, not a theorem.",
   "technique": "Coq proof (list/bit induction, digit-string round trips, record-accumulator loop invariant) + differential correspondence + extracted decoders on implementation output"}
 CLAIMED["C13"] = {
@@ -81,7 +81,7 @@ CLAIMED["C07"] = {
   "text": "Matcher-model theorems (pattern characters stored lower-cased and compared modulo ASCII case, literal priority: only matches with the maximal recursive literal count survive; see Props/C07.v) "
           "plus, on every run, the metamorphic statement itself on the implementation: each size-static program is rendered from its structure in 8 ways (recase, blanks/tabs/block comments at token "
           "boundaries, trailing comments, rule permutation, re-partitioning, injective label renaming, all together) and every rendering must assemble to the base rendering's result; every rendering is also "
-          "compared with the extracted model; literal-vs-expression overlaps are built on purpose.",
+          "compared with the extracted model; literal-vs-expression overlaps are built on purpose. The blank/comment clause is a theorem on the matcher model for both matchers, any fuel and every parsed rule set (C07_blank_lines, C07_blank_lines_spans, C07_blank_lines_match_instr): two lines with the same plain characters and gaps (blanks, tabs, block comments) at the same places give the same candidates with equal argument ASTs and spans at corresponding segment boundaries, under a decidable expression-fuel hypothesis; `r7` vs `r 7` is outside by definition (executable blank_equivb). Letter case at line level is proved for literal runs and the leading literal run of a rule (partial: recasing behind a parameter).",
   "design_ref": "6/C07", "note": COMMON_NOTE + RESOLVER_NOTE + " The invariance under blank insertion and rule order is decided by the metamorphic run, not by a theorem.",
   "technique": "Coq lemmas on the matcher model + metamorphic differential testing of the implementation against itself and against the extracted model"}
 CLAIMED["C08"] = {
@@ -128,7 +128,7 @@ CLAIMED["C15"] = {
   "text": "Proved for all declaration sequences and reference points: the symbol-table lookup of the model equals lexical scope resolution on the declaration forest (C15_lookup); declaration errors are exactly duplicate-in-scope and skipped level; "
           "an undeclared (non-reserved) reference that is evaluated never yields a value in the final pass; resolution depends only on the final forest and the enclosing declarations (forward references); for stable tables every address-free "
           "acyclic constant equals its denotation and any two orderings agree (partial: that the pre-pass stops in a stable table, and its fuel bound, are not proved). Tied to the code by ~9M lookups through the real parser/collect/try_get_by_name, "
-          "~17k one-reference whole programs, per-round pre-pass comparisons and metamorphic constant-order pairs; the extracted Scope spec and an independent Python resolver are evaluated on the implementation's answers.",
+          "~17k one-reference whole programs, per-round pre-pass comparisons and metamorphic constant-order pairs; the extracted Scope spec and an independent Python resolver are evaluated on the implementation's answers. The constants pre-pass terminates within |constants|+1 rounds (tight), stops in a stable table, and address-free acyclic constants are independent of the declaration order for every permutation (C15_constants_fixpoint, C15_order_independent[_renumbered], C15_cycles): no partial statement is left in C15.",
   "design_ref": "6/C15", "note": COMMON_NOTE + " Known finding F54 (symbols named like built-ins). Reading: any symbol (label or constant) opens a scope.",
   "technique": "Coq proof (refinement of the symbol-manager model to a forest spec) + differential correspondence + spec-on-implementation + metamorphic order stream"}
 CLAIMED["C16"] = {
